@@ -6,6 +6,7 @@ from ..callgraph import CallGraph
 from ..fsm import Fsm
 from .c03 import rule_pickup, rule_next_when_empty, plan_before_trigger
 from .c04 import who_calls
+from . import shared
 
 # user-only web actions on the LOCAL Supervisor (dashboard buttons), documented exception of R5
 USER_ONLY = {'SupvisorsInstanceView.restart_sup_action', 'SupvisorsInstanceView.shutdown_sup_action',
@@ -40,6 +41,8 @@ def run(P, R):
     R.check(r2, ok, 'the stop plan follows the stop_sequence of processes and of the application',
             'plan|Stopper.store_application', u.loc(), 'Stopper.store_application does not key the plan by the process '
             'stop_sequence and the application rules.stop_sequence')
+
+    shared.stop_sequence_default(P, R, r2)
 
     # ---------------------------------------------------------------- R3
     r3 = R.rule('R3', 'who-may-call + guard', 'stops are only sent where the process runs: send_stop_process is called '
